@@ -104,6 +104,15 @@ Proof. unfold tab. rewrite map_map. reflexivity. Qed.
 Lemma aget_map {A B} (g : A -> B) d s xs idx : aget (g d) s (map g xs) idx = g (aget d s xs idx).
 Proof. unfold aget. apply map_nth. Qed.
 
+(* the same, whatever the default elements *)
+Lemma aget_map' {A B} (g : A -> B) d d' s xs idx :
+  valid s idx -> length xs = size s -> aget d' s (map g xs) idx = g (aget d s xs idx).
+Proof.
+  intros Hv Hl. unfold aget. rewrite (nth_indep _ d' (g d)).
+  - apply map_nth.
+  - rewrite map_length, Hl. apply ravel_lt; assumption.
+Qed.
+
 (* ---------------------------------------------------------------- blocks partition the indices *)
 Lemma zip_with_app {A B C} (f : A -> B -> C) xs1 xs2 ys1 ys2 :
   length xs1 = length ys1 ->
